@@ -478,3 +478,56 @@ Definition tr_segment (d : point) (t : thick_segment) : thick_segment :=
   TS (tr_join d (ts_start_join t)) (tr_join d (ts_end_join t)).
 Definition tr_isect (d : point) (i : isect) : isect :=
   match i with IPoint p o => IPoint (padd p d) o | IColinear => IColinear end.
+
+(* ---- hypotheses of the translation theorems (Proofs/Join.v), as computable predicates -------------------
+   They are part of the extracted model so that the oracle can report, for every generated case, whether the
+   theorems' hypotheses hold on it. *)
+(* the cast is the identity on a point *)
+Definition pt_in_i32 (p : point) : bool := in_i32 (px p) && in_i32 (py p).
+
+(* `ip` does not reach the saturating cast: colinear, or the rounded quotient fits an i32 *)
+Definition isect_nosat (ip : iparams) : bool :=
+  (ip_den ip =? 0) || pt_in_i32 (ip_intersection_raw ip).
+
+
+(* `fn intersections` uses the rounded point of an IntersectionParams only when nearly_colinear_has_error
+   is false; the saturating cast is therefore irrelevant when the check fires *)
+Definition isect_used_nosat (ip : iparams) : bool := nearly_colinear_has_error ip || isect_nosat ip.
+
+
+(* no cast is reached by a used point, for the left and for the right pair of edges *)
+Definition edges_nosat (fl fr sl sr : line) : bool :=
+  isect_used_nosat (ip_from_lines sl fl) && isect_used_nosat (ip_from_lines sr fr).
+
+
+(* the no-saturation hypothesis of LineJoin::from_points, read off the model: for both pairs of thick-line
+   edges, the rounded intersection fits an i32 whenever it is used *)
+Definition join_nosat (start mid end_ : point) (w : Z) (so : stroke_offset) : bool :=
+  match extents (L start mid) w so, extents (L mid end_) w so with
+  | Some (fl, fr), Some (sl, sr) => edges_nosat fl fr sl sr
+  | _, _ => true
+  end.
+
+
+(* no saturating cast is reached in the join of a window of three vertices, before and after the move *)
+Definition win_nosat (w : Z) (so : stroke_offset) (d : point) (t : point * point * point) : bool :=
+  join_nosat (fst (fst t)) (snd (fst t)) (snd t) w so &&
+  join_nosat (padd (fst (fst t)) d) (padd (snd (fst t)) d) (padd (snd t) d) w so.
+
+Definition poly_nosat (pts : list point) (w : Z) (d : point) : bool :=
+  forallb (win_nosat w SONone d) (windows3 pts).
+
+
+(* the corners of every thick segment lie within +-2^29 (Proofs/Join.v: poly_box_ok is the Prop form) *)
+Definition jbig : Z := 536870912. (* 2^29 *)
+Definition jpt_bigb (p : point) : bool :=
+  (- jbig <=? px p) && (px p <=? jbig) && (- jbig <=? py p) && (py p <=? jbig).
+Definition seg_okb (t : thick_segment) : bool :=
+  jpt_bigb (l_start (fst (ts_edges t))) && jpt_bigb (l_end (fst (ts_edges t))) &&
+  jpt_bigb (l_start (snd (ts_edges t))) && jpt_bigb (l_end (snd (ts_edges t))).
+Definition poly_box_okb (pts : list point) (w : Z) : bool :=
+  match thick_segment_iter pts w with Some segs => forallb seg_okb segs | None => true end.
+
+(* all hypotheses of the composition theorems for the polyline `pts`, width w, moved by d *)
+Definition poly_hyps (pts : list point) (w : Z) (d : point) : bool :=
+  poly_nosat pts w d && poly_box_okb pts w && poly_box_okb (map (fun p => padd p d) pts) w.
